@@ -119,12 +119,20 @@ def check_case(res, T, v, rng, bt=None):
             res.see('history-build-raised:' + kind)
             res.see_in('history-build-errors', '%s:%s' % (kind, type(ex).__name__))
             continue
+        # the history reaches the same abstract value by construction; reading it back through the public API
+        # must agree (outside the zone of the pinned emptyable-optional finding, where reads and BER encoding
+        # materialise an absent component), else the comparison below would silently lose this history
         try:
             if U.canon(T, B.absval(obj, T)) != bt.cv:
-                res.see('history-dropped:value-changed')
+                if 'absent-optional-emptyable-record' in feats0:
+                    res.see('history-dropped:value-changed-in-emptyable-optional-zone')
+                else:
+                    res.witness('history-reads-back-as-a-different-value:' + kind, feats0 | set(used),
+                                ('c04', T, v, 'DER', 'plain', kind), 'routes %s' % sorted(used))
                 continue
-        except B.NotAValue:
-            res.see('history-dropped:not-a-value')
+        except B.NotAValue as ex:
+            res.witness('history-reads-back-as-not-a-value:' + kind, feats0 | set(used),
+                        ('c04', T, v, 'DER', 'plain', kind), '%s; routes %s' % (ex, sorted(used)))
             continue
         group.append((kind, obj))
     routes = set(u for u in used if u.startswith('route:'))
